@@ -37,6 +37,110 @@ def _content(r: random.Random, tag: str) -> str:
     return ("%s=" % tag) * 12000 + "\n"         # > 64 KiB
 
 
+# ----------------------------------------------------------------------------- byte-minimal content edits
+#
+# File contents are `str` whose characters are BYTES (code points 0..255; written with .encode("latin-1")), so that
+# specs stay JSON-able while contents may be arbitrary binary.  Each kind changes the bytes in a way a text-mode /
+# decoding / normalising reader would not see; the statement speaks of files with equal CONTENTS, i.e. equal bytes.
+
+def _b(u: str) -> str:
+    """UTF-8 bytes of the unicode text `u`, as a byte-string"""
+    return u.encode("utf-8").decode("latin-1")
+
+
+BYTE_KINDS = [
+    "lf-to-crlf", "lf-to-cr", "crlf-to-cr", "binary-cr-before-lf", "trailing-newline-added", "trailing-newline-removed",
+    "bom-added", "nul-byte-inserted", "nul-byte-appended", "invalid-utf8-byte-inserted", "invalid-utf8-byte-replaced",
+    "nfc-to-nfd", "trailing-space-added", "case-of-one-byte", "byte-appended-at-4KiB", "byte-appended-at-8KiB",
+    "byte-appended-at-64KiB", "byte-changed-after-64KiB",
+]
+
+
+def byte_base(kind: str, r: random.Random) -> str:
+    """a content to which `kind` applies"""
+    n = r.randrange(10 ** 6)
+    if kind in ("lf-to-crlf", "lf-to-cr"):
+        return "a,b,%d\n1,2,3\n\nlast line%s" % (n, r.choice(["\n", ""]))
+    if kind == "crlf-to-cr":
+        return "a,b,%d\r\n1,2,3\r\nlast\r\n" % n
+    if kind == "binary-cr-before-lf":
+        return "\x89PNG\x00\x01%d\xff\xfe\n\x02\x03\x0a\x80tail" % n
+    if kind == "trailing-newline-added":
+        return "no newline at the end %d" % n
+    if kind == "trailing-newline-removed":
+        return "one newline at the end %d\n" % n
+    if kind == "invalid-utf8-byte-replaced":
+        return "head %d \xff tail\n" % n
+    if kind == "nfc-to-nfd":
+        return _b("caf\u00e9 %d \u00c5ngstr\u00f6m\n" % n)
+    if kind == "case-of-one-byte":
+        return "Value %d Of some Text\n" % n
+    if kind == "byte-appended-at-4KiB":
+        return ("%07d\n" % n) * 512
+    if kind == "byte-appended-at-8KiB":
+        return ("%07d\n" % n) * 1024
+    if kind == "byte-appended-at-64KiB":
+        return ("%07d\n" % n) * 8192
+    if kind == "byte-changed-after-64KiB":
+        return ("%07d\n" % n) * 8192 + "tail after the boundary\n"
+    return "some text %d\nsecond line\n" % n
+
+
+def byte_edit(text: str, kind: str, r: random.Random) -> Optional[str]:
+    """`text` with the byte-minimal edit `kind`, None when the kind does not apply to it"""
+    out = None
+    if kind == "lf-to-crlf" and "\n" in text and "\r" not in text:
+        out = text.replace("\n", "\r\n")
+    elif kind == "lf-to-cr" and "\n" in text and "\r" not in text:
+        out = text.replace("\n", "\r")
+    elif kind == "crlf-to-cr" and "\r\n" in text:
+        out = text.replace("\r\n", "\r")
+    elif kind == "binary-cr-before-lf" and "\n" in text and "\r" not in text:
+        i = text.index("\n")
+        out = text[:i] + "\r" + text[i:]          # ONE 0x0D in front of the first 0x0A
+    elif kind == "trailing-newline-added" and not text.endswith("\n"):
+        out = text + "\n"
+    elif kind == "trailing-newline-removed" and text.endswith("\n") and len(text) > 1:
+        out = text[:-1]
+    elif kind == "bom-added" and not text.startswith("\xef\xbb\xbf"):
+        out = "\xef\xbb\xbf" + text
+    elif kind == "nul-byte-inserted" and len(text) > 1:
+        i = r.randrange(1, len(text))
+        out = text[:i] + "\x00" + text[i:]
+    elif kind == "nul-byte-appended":
+        out = text + "\x00"
+    elif kind == "invalid-utf8-byte-inserted":
+        i = r.randrange(0, len(text) + 1)
+        out = text[:i] + r.choice(["\xff", "\xc3", "\x80", "\xed\xa0\x80"]) + text[i:]
+    elif kind == "invalid-utf8-byte-replaced" and "\xff" in text:
+        out = text.replace("\xff", "\xfe", 1)     # both undecodable: equal after errors='replace' / 'ignore'
+    elif kind == "nfc-to-nfd":
+        import unicodedata
+        try:
+            u = text.encode("latin-1").decode("utf-8")
+        except UnicodeDecodeError:
+            return None
+        v = unicodedata.normalize("NFD", u)
+        out = _b(v) if v != u else None
+    elif kind == "trailing-space-added":
+        out = text[:-1] + " \n" if text.endswith("\n") else text + " "
+    elif kind == "case-of-one-byte":
+        idx = [i for i, ch in enumerate(text) if ch.isascii() and ch.isalpha()]
+        if idx:
+            i = r.choice(idx)
+            out = text[:i] + text[i].swapcase() + text[i + 1:]
+    elif kind == "byte-appended-at-4KiB" and len(text) == 4096:
+        out = text + "x"
+    elif kind == "byte-appended-at-8KiB" and len(text) == 8192:
+        out = text + "x"
+    elif kind == "byte-appended-at-64KiB" and len(text) == 65536:
+        out = text + "x"
+    elif kind == "byte-changed-after-64KiB" and len(text) > 65536:
+        out = text[:65536] + ("T" if text[65536] != "T" else "U") + text[65537:]
+    return out if out is not None and out != text else None
+
+
+
 SIDE_FORMS = ["file-ref", "file-copy", "file-link", "stdout", "file-output", "dir-ref-on-cmdline",
               "dir-ref-on-cmdline-with-path-suffix", "dir-ref-off-cmdline", "dir-copy-off-cmdline",
               "dir-link-off-cmdline"]
@@ -257,15 +361,26 @@ def _free_name(spec, r, pool):
     return r.choice(cands)
 
 
-def _edit_content(text: str, r: random.Random) -> str:
-    how = r.choice(["append", "last", "first", "drop"]) if text else "append"
-    if how == "append":
-        return text + "x"
-    if how == "last":
-        return text[:-1] + ("y" if text[-1] != "y" else "z")
-    if how == "first":
-        return ("Q" if text[0] != "Q" else "R") + text[1:]
-    return text[:-1] if len(text) > 1 else text + "x"
+def _edit_content(text: str, r: random.Random) -> Tuple[str, str]:
+    """(edited content, kind of edit): the four plain edits or one of the byte-minimal BYTE_KINDS that applies"""
+    plain = ["append", "last", "first", "drop"] if text else ["append"]
+    cands = plain + [k for k in BYTE_KINDS if not k.startswith("byte-") and k not in ("nfc-to-nfd", "crlf-to-cr",
+                                                                                     "invalid-utf8-byte-replaced")]
+    cands += ["lf-to-crlf", "lf-to-cr"]          # line terminators twice as likely
+    for _ in range(8):
+        how = r.choice(cands)
+        if how == "append":
+            return text + "x", how
+        if how == "last":
+            return text[:-1] + ("y" if text[-1] != "y" else "z"), how
+        if how == "first":
+            return ("Q" if text[0] != "Q" else "R") + text[1:], how
+        if how == "drop":
+            return (text[:-1] if len(text) > 1 else text + "x"), how
+        new = byte_edit(text, how, r)
+        if new is not None:
+            return new, how
+    return text + "x", "append"
 
 
 EQUAL, DIFFER, NONE, NOCLAIM = "equal", "differ", "none", None
@@ -307,8 +422,8 @@ def edits(spec: Dict[str, Any], r: random.Random) -> List[Dict[str, Any]]:
     if drefs:
         s = copy.deepcopy(spec)
         d = r.choice(drefs)["path"]
-        s["data"][d] = _edit_content(s["data"][d], r)
-        add("R3-input-file-content", s, DIFFER, NOCLAIM, d)
+        s["data"][d], how = _edit_content(s["data"][d], r)
+        add("R3-input-file-content", s, DIFFER, NOCLAIM, "%s (%s)" % (d, how), content_edit=how)
     in_args = [t["refs"][a[1]] for a in t["args"] if a[0] == "ref"]
     dargs = []
     for r_ in in_args:
@@ -335,8 +450,8 @@ def edits(spec: Dict[str, Any], r: random.Random) -> List[Dict[str, Any]]:
     # content of the file the DIRECT producer wrote and the target names: strong differs, fuzzy ignores it
     s = copy.deepcopy(spec)
     last = spec["chain"][-1]
-    s["outputs"][last]["out.txt"] = _edit_content(s["outputs"][last]["out.txt"], r)
-    add("R6-content-produced-by-direct-producer", s, DIFFER, EQUAL, last)
+    s["outputs"][last]["out.txt"], how = _edit_content(s["outputs"][last]["out.txt"], r)
+    add("R6-content-produced-by-direct-producer", s, DIFFER, EQUAL, "%s (%s)" % (last, how), content_edit=how)
     # ---------------- fuzzy clause 2 / strong 'exactly when': an upstream DEFINITION changes, contents do not
     k = r.randrange(len(spec["chain"]))
     s = copy.deepcopy(spec)
@@ -356,10 +471,11 @@ def edits(spec: Dict[str, Any], r: random.Random) -> List[Dict[str, Any]]:
         consumer = next(c for c in spec["comps"] if c["name"] == spec["chain"][k + 1])
         uses_stdout = any(r_["producer"] == pn and r_["method"] == "output" for r_ in consumer["refs"])
         fn = "out.stdout" if uses_stdout else "out.txt"
-        s["outputs"][pn][fn] = _edit_content(s["outputs"][pn][fn], r)
+        s["outputs"][pn][fn], how = _edit_content(s["outputs"][pn][fn], r)
         touches_target = any(r_["producer"] == pn for r_ in t["refs"])
         add("U2-content-produced-by-indirect-producer", s,
-            NOCLAIM if (spec["has_dir_ref"] or touches_target) else EQUAL, EQUAL, "%s/%s" % (pn, fn))
+            NOCLAIM if (spec["has_dir_ref"] or touches_target) else EQUAL, EQUAL, "%s/%s (%s)" % (pn, fn, how),
+            content_edit=how)
     # ---------------- named hash-irrelevant by the statement -> equal
     s = copy.deepcopy(spec)
     s["where"] = r.choice(["B", "some where/else", "x" * 60, "A/A/A"])
